@@ -26,7 +26,9 @@ Definition wsum (s s' : sink) : Prop :=
   (exists n, srem s <> 0 /\ n <= srem s /\ srem s' = srem s - n /\
      ((io s = 0 /\ crem s <> 0 /\ n <= crem s /\ crem s' = crem s - n /\
        wire s' = wire s ++ (if n =? 0 then [] else [W_CHUNK; n])) \/
-      (io s <> 0 /\ wire s' = wire s /\ crem s' = crem s))).
+      (io s <> 0 /\ wire s' = wire s /\ crem s' = crem s))) \/
+  (* the PUBACK answering an inbound PUBLISH (operation 17): only when the sink owes no payload *)
+  (exists v, io s = 0 /\ srem s = 0 /\ wire s' = wire s ++ [W_IN_PUBACK; v] /\ srem s' = srem s /\ crem s' = crem s).
 
 Lemma quiet_refl s : quiet s s. Proof. repeat split. Qed.
 Lemma quiet_trans a b c : quiet a b -> quiet b c -> quiet a c.
@@ -277,9 +279,9 @@ Proof.
   unfold enc_chunk, add_wire. destruct (N.eqb_spec (io s) 0) as [I|I].
   - destruct (N.eqb_spec (crem s) 0) as [C|C]; [apply wsum_quiet, quiet_refl|].
     destruct (N.ltb_spec (crem s) n) as [L2|L2]; [apply wsum_quiet, quiet_refl|]. cbn [fst].
-    right. right. right. exists n. split; auto. split; auto. destruct (n =? 0); sk; split; auto; left; repeat split; auto.
+    right. right. right. left. exists n. split; auto. split; auto. destruct (n =? 0); sk; split; auto; left; repeat split; auto.
     now rewrite app_nil_r.
-  - cbn [fst]. right. right. right. exists n. sk. repeat split; auto.
+  - cbn [fst]. right. right. right. left. exists n. sk. repeat split; auto.
 Qed.
 
 Lemma chunk_payload_wsum s sm srx n : wsum s (fst (chunk_payload s sm srx n)).
@@ -381,6 +383,11 @@ Proof.
   - apply close_wsum. - apply wsum_quiet, quiet_force_close. - apply wsum_quiet. qt.
   - apply chunk_wsum. - apply wsum_quiet, quiet_drop_stream. - apply wsum_quiet, quiet_drop_chunk.
   - apply wsum_quiet, quiet_refl. - apply create_wsum.
+  - destruct (in_publish_fields s id) as (_&_&_&_&_&_&_&_&_&_&SR&_&_&CR&_). unfold in_publish in *.
+    destruct (N.eqb_spec (io s) 0) as [I|I]; cbn [andb]; [|apply wsum_quiet, quiet_refl].
+    destruct (N.eqb_spec (srem s) 0) as [S|S]; cbn [andb]; [|apply wsum_quiet, quiet_refl].
+    destruct (negb (id =? 0) && negb (client s)); [|apply wsum_quiet, quiet_refl].
+    right. right. right. right. exists id. unfold add_wire. sk. repeat split; auto.
 Qed.
 
 Lemma op_wsum s o : wsum (set_wire s []) (sink_op s o).
@@ -408,13 +415,14 @@ Qed.
 Theorem sync_step s o : codec_sync s -> codec_sync (sink_op s o).
 Proof.
   intros SY Z. pose proof (op_io0 s o Z) as Z0. specialize (SY Z0).
-  destruct (op_wsum s o) as [(Q1 & Q2 & Q3)|[(tag & v & _ & _ & _ & _ & Q2 & Q3)|[(tag & v & rem & _ & S0 & S1 & [(I & _ & C)|(I & _ & _)])|(n & S0 & L & S1 & [(I & C0 & L2 & C & _)|(I & _ & _)])]]].
+  destruct (op_wsum s o) as [(Q1 & Q2 & Q3)|[(tag & v & _ & _ & _ & _ & Q2 & Q3)|[(tag & v & rem & _ & S0 & S1 & [(I & _ & C)|(I & _ & _)])|[(n & S0 & L & S1 & [(I & C0 & L2 & C & _)|(I & _ & _)])|(v & _ & _ & _ & Q2 & Q3)]]]].
   - sk in Q2. sk in Q3. congruence.
   - sk in Q2. sk in Q3. congruence.
   - congruence.
   - sk in I. contradiction.
   - sk in S1. sk in C. rewrite S1, C, SY. reflexivity.
   - sk in I. contradiction.
+  - sk in Q2. sk in Q3. congruence.
 Qed.
 
 Theorem sync_run ops : forall s, codec_sync s -> codec_sync (run_from s ops).
@@ -429,12 +437,13 @@ Theorem no_packet_while_payload_owed s o :
   forallb (fun t => t =? W_CHUNK) (wtags (wire (sink_op s o))) = true /\ (length (wire (sink_op s o)) <= 2)%nat.
 Proof.
   intros SY S.
-  destruct (op_wsum s o) as [(Q1 & _)|[(tag & v & _ & I & C & _)|[(tag & v & rem & _ & S0 & _)|(n & S0 & L & S1 & [(I & C0 & L2 & C & E)|(I & E & _)])]]].
+  destruct (op_wsum s o) as [(Q1 & _)|[(tag & v & _ & I & C & _)|[(tag & v & rem & _ & S0 & _)|[(n & S0 & L & S1 & [(I & C0 & L2 & C & E)|(I & E & _)])|(v & _ & S0 & _)]]]].
   - sk in Q1. rewrite Q1. split; [reflexivity|cbn; lia].
   - exfalso. sk in I. sk in C. specialize (SY I). congruence.
   - sk in S0. contradiction.
   - sk in E. rewrite E. destruct (n =? 0); cbn; split; auto.
   - sk in E. rewrite E. split; [reflexivity|cbn; lia].
+  - sk in S0. contradiction.
 Qed.
 
 (* (c) the chunk bytes written never exceed what is owed; on an open connection the sink's account decreases by exactly
@@ -450,7 +459,7 @@ Proof.
   intros SY. cbv zeta. pose proof (sync_step s o SY) as SY'.
   assert (SC : io (sink_op s o) = 0 -> srem (sink_op s o) = 0 <-> crem (sink_op s o) = 0).
   { intros Z. rewrite (SY' Z). tauto. }
-  destruct (op_wsum s o) as [(Q1 & Q2 & Q3)|[(tag & v & T & I & C & E & Q2 & Q3)|[(tag & v & rem & T & S0 & S1 & [(I & E & C)|(I & E & C)])|(n & S0 & L & S1 & [(I & C0 & L2 & C & E)|(I & E & C)])]]].
+  destruct (op_wsum s o) as [(Q1 & Q2 & Q3)|[(tag & v & T & I & C & E & Q2 & Q3)|[(tag & v & rem & T & S0 & S1 & [(I & E & C)|(I & E & C)])|[(n & S0 & L & S1 & [(I & C0 & L2 & C & E)|(I & E & C)])|(v & I & S0 & E & Q2 & Q3)]]]].
   - sk in Q1. sk in Q2. rewrite Q1, Q2. cbn [chunk_bytes]. repeat split; auto; try lia.
   - sk in E. sk in Q2. rewrite E, Q2. assert (T8 : (tag =? W_CHUNK) = false).
     { unfold is_ctl in T. destruct (N.eqb_spec tag W_CHUNK) as [->|]; [discriminate|reflexivity]. }
@@ -462,6 +471,8 @@ Proof.
   - sk in E. sk in S0. sk in S1. sk in L. rewrite E, S1.
     destruct (N.eqb_spec n 0) as [->|N0]; cbn [app chunk_bytes]; rewrite ?N.eqb_refl; repeat split; auto; try lia.
   - sk in E. sk in I. rewrite E. cbn [chunk_bytes]. repeat split; auto; try lia; try (intros; contradiction).
+  - sk in E. sk in S0. sk in Q2. rewrite E, Q2. cbn [app chunk_bytes]. replace (W_IN_PUBACK =? W_CHUNK) with false by reflexivity.
+    repeat split; auto; try lia; try (intros; contradiction).
 Qed.
 
 (* (b) a send that ends locally with anything but Ok -- Disconnected, PacketIdInUse, Encode (streaming in progress,
